@@ -43,7 +43,11 @@ def main():
     keep = "--keep" in opts
     fallback_all = "--fallback-all" in opts
     label = ""
+    seeds = [None]
     for o in opts:
+        if o.startswith("--seeds="):
+            # robustness: run the check once per VERIF_SEED value; verdict CAUGHT only if caught every time
+            seeds = o.split("=", 1)[1].split(",")
         if o.startswith("--label="):
             label = o.split("=", 1)[1] + "-"
         if o.startswith("--props="):
@@ -87,10 +91,17 @@ def main():
                 while todo:
                     p = todo.pop(0)
                     t0 = time.time()
-                    e = dict(os.environ, VERIF_REPO=wt)
-                    e.pop("VERIF_SEED", None)
-                    rcc, outc = sh([os.path.join(ROOT, "check"), p, tier], cwd=ROOT, env=e, timeout=7200)
-                    verdict = {0: "MISSED", 1: "CAUGHT", 2: "INCONCLUSIVE"}.get(rcc, "rc=%d" % rcc)
+                    per_seed = []
+                    for sd in seeds:
+                        e = dict(os.environ, VERIF_REPO=wt)
+                        e.pop("VERIF_SEED", None)
+                        if sd is not None:
+                            e["VERIF_SEED"] = sd
+                        rcc, outc = sh([os.path.join(ROOT, "check"), p, tier], cwd=ROOT, env=e, timeout=7200)
+                        per_seed.append({0: "MISSED", 1: "CAUGHT", 2: "INCONCLUSIVE"}.get(rcc, "rc=%d" % rcc))
+                        if rcc != 1:
+                            break
+                    verdict = per_seed[-1] if len(set(per_seed)) == 1 else "/".join(per_seed)
                     expl = ""
                     if rcc == 1:
                         m = re.search(r"property \w+ violated:\n(.*?)(\n\s+case:|\n\s+history:|$)", outc, re.S)
@@ -103,7 +114,7 @@ def main():
                             expl = " ".join(m.group(2).split())[:400] if m else outc[-400:]
                     elif rcc == 2:
                         expl = outc[-600:]
-                    rec["checks"][p] = {"verdict": verdict, "seconds": round(time.time() - t0), "explanation": expl}
+                    rec["checks"][p] = {"verdict": verdict, "seconds": round(time.time() - t0), "explanation": expl, **({"per_seed": dict(zip([str(x) for x in seeds], per_seed))} if seeds != [None] else {})}
                     if not todo and fallback_all and not done_fallback and not any(c["verdict"] == "CAUGHT" for c in rec["checks"].values()):
                         # the property's own check missed it: does any other property's check notice?
                         done_fallback = True
